@@ -182,11 +182,11 @@ class AbstractExcelInPython(ABC):
         for item in re.finditer(pattern_flags, pattern):
             match item:
                 case item if '?' in item.group():
-                    pattern = pattern.replace(item.group(), '.' + '{{' + str(item.span()[1]-item.span()[0]) + '}}', 1)
+                    pattern = pattern.replace(item.group(), '.' + '{' + str(item.span()[1]-item.span()[0]) + '}', 1)
                 case item if '*' in item.group():
                     pattern = pattern.replace(item.group(), '.*', 1)
-        pattern = re.sub(r'(?<=~)[?*]', r'\\\\\g<0>', pattern)
-        pattern = re.sub(r'[\[\]]', r'\\\\\g<0>', pattern)
+        pattern = re.sub(r'(?<=~)[?*]', r'\\\g<0>', pattern)
+        pattern = re.sub(r'[\[\]]', r'\\\g<0>', pattern)
         return pattern
 
     @staticmethod
